@@ -1817,6 +1817,70 @@ func b09SmallDomain() [][]*b09N {
 	return out
 }
 
+// b09SharedOptions: source clauses that yield SEVERAL descriptor elements from one option list:
+// `extensions a, b, c [opts];` (every range gets its own options message but the parser lets
+// them share the uninterpreted-option storage), groups (field + message), map fields (field +
+// entry message), proto3 optional (field + synthetic oneof).  Option lists mix built-in and
+// custom options in both orders, singular and repeated custom options, 2-4 ranges.  All of
+// them are accepted by the unchanged compiler, so they are not filtered.
+func b09SharedOptions() [][]*b09N {
+	var out [][]*b09N
+	opts := b09OptsFile()
+	rangesOf := func(n int) []string {
+		a := []string{strconv.Itoa(n)}
+		for i := 0; i < n; i++ {
+			lo := 100 * (i + 1)
+			hi := lo + 99
+			if i == 1 {
+				hi = lo // a single-number range
+			}
+			a = append(a, strconv.Itoa(lo), strconv.Itoa(hi))
+		}
+		return a
+	}
+	lists := [][]string{
+		{"verification = UNVERIFIED", "(b09o.rgi) = 1"},
+		{"(b09o.rgi) = 1", "verification = UNVERIFIED"},
+		{"verification = UNVERIFIED", `(b09o.rtags) = "x"`},
+		{`(b09o.rtags) = "x"`, "verification = UNVERIFIED", `(b09o.rtags) = "y"`},
+		{"verification = UNVERIFIED", "(b09o.rcfg).i = 1", `(b09o.rcfg).s = "x"`},
+		{"verification = UNVERIFIED", "(b09o.rcfg) = { i: 1 ri: [1, 2] }", "(b09o.rgi) = 2", `(b09o.rtags) = "z"`},
+		{"verification = UNVERIFIED"},
+		{`(b09o.rtags) = "a"`, `(b09o.rtags) = "b"`},
+	}
+	for _, syn := range []string{"2", "e"} {
+		for n := 2; n <= 4; n++ {
+			for _, l := range lists {
+				out = append(out, []*b09N{opts, b09File("a.proto", syn, "p", b09Leaf('I', "b09o.proto"),
+					b09Msg("A", &b09N{K: 'r', A: rangesOf(n), Opts: l}, b09Msg("B", &b09N{K: 'r', A: rangesOf(2), Opts: l})))})
+			}
+		}
+	}
+	fl := [][]string{
+		{"deprecated = true", "(b09o.fdk) = K1"},
+		{"(b09o.fdk) = K1", "deprecated = true"},
+		{"deprecated = true", `(b09o.fdrs) = "a"`, `(b09o.fdrs) = "b"`},
+		{`(b09o.fdrs) = "a"`, "deprecated = false", `(b09o.fdrs) = "b"`, "(b09o.fdcfg).i = 1"},
+	}
+	for _, l := range fl {
+		out = append(out, []*b09N{opts, b09File("a.proto", "2", "p", b09Leaf('I', "b09o.proto"), b09Msg("A",
+			&b09N{K: 'g', A: []string{"o", "Grp", "1"}, Opts: l, Body: []*b09N{b09Fld("o", "int32", "a", 1)}},
+			&b09N{K: 'm', A: []string{"string", "A", "m_x", "2", "-"}, Opts: l},
+			&b09N{K: 'f', A: []string{"r", "int32", "r", "3", "JR"}, Opts: l}))})
+		for _, syn := range []string{"3", "e"} {
+			lbl := "o"
+			if syn == "e" {
+				lbl = "n"
+			}
+			out = append(out, []*b09N{opts, b09File("a.proto", syn, "p", b09Leaf('I', "b09o.proto"), b09Msg("A",
+				&b09N{K: 'f', A: []string{lbl, "int32", "a", "1", "-"}, Opts: l},
+				&b09N{K: 'f', A: []string{lbl, "A", "b", "2", "-"}, Opts: l},
+				&b09N{K: 'm', A: []string{"int32", "string", "m_y", "3", "JM"}, Opts: l}))})
+		}
+	}
+	return out
+}
+
 // b09FeatureFamily: constructs for which the linker / options interpreter synthesises or
 // copies something into the descriptor, centred on editions features (map fields whose
 // features are propagated to the synthetic key/value fields, file/message/enum level
@@ -2059,14 +2123,10 @@ func (e *b09Engine) Gen(r *Rand, tier string) [][]string {
 	var cases [][]string
 	add := func(op string) { cases = append(cases, []string{op}) }
 	var wss [][]*b09N
-	for _, ws := range b09SmallDomain() {
-		if b09Accepted(ws) {
-			wss = append(wss, ws)
-		} else {
-			// a hand-made workspace that the compiler rejects is a generator bug: surface it
-			add(e.name + "-small-domain-rejected " + ws[len(ws)-1].A[0] + " " + b09EncodeWS(ws))
-		}
-	}
+	// the hand-made small domain is NOT filtered by acceptance: the model says these workspaces
+	// compile, so a rejection by the real compiler shows up as a disagreement
+	wss = append(wss, b09SmallDomain()...)
+	wss = append(wss, b09SharedOptions()...)
 	for _, ws := range b09FeatureFamily() {
 		if b09Accepted(ws) {
 			wss = append(wss, ws)
